@@ -104,12 +104,12 @@ PROPS = {
         title='One entry per distinct type: aliases share an id, distinct types never merge',
         level='proof',
         technique='Verus: interner duplicate-freeness + register_type "present => unchanged" postcondition + ghost evaluation counter; generic identity obligations generated per TypeInfo impl (rustc-expanded)',
-        level_text='register_type ensures: identity already present => table and definitions unchanged and the existing id returned; a ghost counter asserted before every .type_info() call proves the definition is evaluated at most once per call and only for an identity absent on entry. For every TypeInfo impl of src/impls.rs (macro-generated ones included) a generic proof obligation is generated: transparent wrappers (Box, Rc, Arc, &, &mut, Vec, VecDeque, String, PhantomData) have the identity of their target for ALL type arguments incl. nested ones, every other impl has identity Self (with TypeId injectivity: never shares an id); MetaType::new is proved to store TypeId::of::<T::Identity>().',
+        level_text='register_type ensures: identity already present => table and definitions unchanged and the existing id returned; a ghost counter asserted before every .type_info() call proves the definition is evaluated at most once per call and only for an identity absent on entry. For every TypeInfo impl of src/impls.rs (macro-generated ones included) a generic proof obligation is generated: transparent wrappers (Box, Rc, Arc, &, &mut, Vec, VecDeque, String, PhantomData) have the identity of their target for ALL type arguments incl. nested ones, every other impl has identity Self (with TypeId injectivity: never shares an id); MetaType::new is proved to store TypeId::of::<T::Identity>(). "Exactly one entry per identity REACHABLE from what was registered": theorem_exactly_reachable - in a registry rooted in the registered identities (history invariant, lemma_rooted_step) an identity is interned if and only if it is reachable from a root; no other entry is ever created (minimality clause of the trait contract, proved for the Registry functions and all 14 impls).',
         level_note='TypeId::of injectivity is an assumption about std (A4). Derived impls (`type Identity = Self` emitted by the proc-macro) and user-written impls are outside the obligations.',
-        verus=[('interner', INTERNER_ITEMS), ('registry', ['Registry::intern_type_id', 'Registry::register_type', 'tmpl::lemma_one_entry_per_identity']),
+        verus=[('interner', INTERNER_ITEMS), ('registry', ['Registry::intern_type_id', 'Registry::register_type', 'Registry::register_types', 'Registry::map_into_portable', 'tmpl::lemma_one_entry_per_identity', 'tmpl::theorem_exactly_reachable', 'tmpl::lemma_rooted_*', 'tmpl::lemma_reach_*', 'tmpl::lemma_path_closed', 'tmpl::lemma_succ_closed', 'tmpl::lemma_img_mentions', 'tmpl::lemma_type_reaches']), ('registry_impls', IMPL_ITEMS),
                ('alias', ['TypeInfo for *', 'tmpl::identity::*']), ('metatype', ['MetaType::new', 'MetaType::type_id'])],
         kani_quick=['metatype_new_identity'], kani_thorough=['metatype_new_identity'],
-        assumptions=['A1', 'A4', 'A5', 'A7', 'A9', 'PARTIAL', 'VSTD', 'TOOLS'],
+        assumptions=['A1', 'A4', 'A5', 'A7', 'A9', 'PARTIAL', 'MODULAR', 'A12', 'VSTD', 'TOOLS'],
     ),
     'C10': dict(
         title='retain keeps exactly the reachable sub-registry, renumbered consistently',
@@ -124,10 +124,10 @@ PROPS = {
     'C11': dict(
         title='Ids are stable and metadata is reproducible',
         level='proof',
-        technique='Verus: `extends` postcondition (table prefix-extended, old definitions untouched) on every registry operation; reflexivity/transitivity lemmas over histories',
-        level_text='Clause 1 (every later state extends earlier ones without renumbering or altering existing entries) is the `extends` clause of the trait contract, proved for register_type, intern_type_id and inherited by every into_portable impl; lemma_extends_trans / lemma_id_stable lift it to arbitrary histories. Clause 3 is proved in this form: lemma_order_independent - any two registry states satisfying the (proved) invariant that have interned the same SET of identities hold, for each identity, definitions that are equal up to the renaming m between their tables (type_sim over all eight definition kinds, strings by characters), and m is a bijection between their id ranges; it follows from lemma_two_images (two portable images of one definition w.r.t. two duplicate-free tables differ exactly by the renaming).',
-        level_note='Clause 2 (byte-identical replay) is not contract-shaped: it follows from determinism of safe single-threaded Rust with no address- or hash-dependent iteration (assumption, not proved). Clause 3: what remains unproved is the premise of lemma_order_independent, namely that two orders of the same roots intern the same set of identities (the reachable closure) - that part is bounded only (native: all pairs of pool types with recursive roots, both orders). register_types / map_into_portable assumed (external).',
-        verus=[('registry', REGISTRY_ITEMS + ['tmpl::lemma_extends_*', 'tmpl::lemma_id_stable', 'tmpl::lemma_prefix_trans', 'tmpl::lemma_order_independent', 'tmpl::lemma_two_images', 'tmpl::lemma_ref_two', 'tmpl::lemma_fields_two']), ('registry_impls', IMPL_ITEMS), ('interner', INTERNER_ITEMS),
+        technique='Verus: `extends` postcondition (table prefix-extended, old definitions untouched) and minimality postcondition (everything interned is reachable from what was converted) on every registry operation; history invariant `rooted`; order-independence theorem up to renaming',
+        level_text='Clause 1 (every later state extends earlier ones without renumbering or altering existing entries) is the `extends` clause of the trait contract, proved for register_type, intern_type_id and inherited by every into_portable impl; lemma_extends_trans / lemma_id_stable lift it to arbitrary histories. Clause 3 is proved in this form: lemma_order_independent - any two registry states satisfying the (proved) invariant that have interned the same SET of identities hold, for each identity, definitions that are equal up to the renaming m between their tables (type_sim over all eight definition kinds, strings by characters), and m is a bijection between their id ranges; it follows from lemma_two_images (two portable images of one definition w.r.t. two duplicate-free tables differ exactly by the renaming). The premise is proved too: the trait contract carries a minimality clause (every identity a call interns is reachable, along the mentions of the compile-time definitions, from an identity the converted value mentions), proved for register_type / register_types / map_into_portable and all 14 impls; lemma_rooted_new / lemma_rooted_step turn it into the history invariant "the registry is rooted in the set of identities registered so far", lemma_reach_closed proves a dense registry closed under reachability, theorem_same_identities concludes that two registries rooted in the same set hold the same identities, and theorem_order_independent puts the pieces together: the same set of roots registered in any two orders yields registries of the same size that agree up to the renaming of ids.',
+        level_note='Clause 2 (byte-identical replay) is not contract-shaped: it follows from determinism of safe single-threaded Rust with no address- or hash-dependent iteration (assumption, not proved). Clause 3 is stated for roots registered through register_type (lemma_rooted_step consumes exactly its postconditions); register_types / map_into_portable carry the same minimality clause. The native leg (all pairs of pool types with recursive roots, both orders) runs alongside as a bounded cross-check. Reachability is over info_of, i.e. relies on A9 (a declared identity determines the definition) - discharged for src/impls.rs by unit alias.',
+        verus=[('registry', REGISTRY_ITEMS + ['tmpl::lemma_extends_*', 'tmpl::lemma_id_stable', 'tmpl::lemma_prefix_trans', 'tmpl::lemma_order_independent', 'tmpl::lemma_two_images', 'tmpl::lemma_ref_two', 'tmpl::lemma_fields_two', 'tmpl::theorem_*', 'tmpl::lemma_rooted_*', 'tmpl::lemma_reach_*', 'tmpl::lemma_path_closed', 'tmpl::lemma_succ_closed', 'tmpl::lemma_img_mentions', 'tmpl::lemma_type_reaches', 'tmpl::lemma_dense_closed']), ('registry_impls', IMPL_ITEMS), ('interner', INTERNER_ITEMS),
                # order independence presupposes that a declared identity determines the definition (coherence of the library's own impls)
                ('alias', ['TypeInfo for *', 'tmpl::identity::*'])],
         kani_quick=[], kani_thorough=[],
